@@ -290,6 +290,14 @@ def r5(ctx):
             c = compilers.get(c["alias_of"], {})
             seen += 1
         extra = c.get("parser", [])
+        for opt in extra:
+            # an option of the compiler definition that feeds one of the extracted lists must ADD to it: the lists hold
+            # what the whole command line gave, in order
+            if opt.get("dest") in ("defines", "include_paths", "include_files"):
+                n += 1
+                k_ = f"config:ArgumentParser.parse_args:catalogue:{comp}:{opt.get('flags', ['?'])[0]}:adds-to-{opt.get('dest')}"
+                bad_ = opt.get("override") is True or opt.get("action") in ("store", "store_const")
+                ctx.check(not bad_, k_, f"`{' / '.join(opt.get('flags', []))}` of {comp} writes `{opt.get('dest')}` with {'override = true' if opt.get('override') else 'action = ' + str(opt.get('action'))}: it REPLACES the list, so every -I / -D / -include given earlier on the command line is dropped", f.loc())
         items = list(vectors) + ([] if comp == "gcc" else [])
         for vec in items:
             n += 1
